@@ -194,6 +194,7 @@ func C09(p *load.Prog, r *oblig.Run) {
 	r.Rule("R09.a", "the merge result is built from fresh nodes all the way down", 2)
 	r.Rule("R09.b", "merging performs no structural write on either input", 2)
 	c09TypedNil(p, r)
+	c09Accounts(p, r)
 	r.Rule("R09.c", "a merge function returns nil or a node computed from both operands (nothing of the right node is dropped by a shortcut)", 1)
 	g := cg.New(p, false)
 	mn := p.MustFunc(load.PkgRoot, "MergeNodes")
